@@ -8,6 +8,7 @@ import Desert.Props.C03
 #print axioms C03.first_failure_wins
 #print axioms C03.evolution_outcome_frame
 #print axioms C03.evolution_outcome
+#print axioms C03.evolution_outcome_enum
 #print axioms C03.hpoint_pairs_aligned
 #print axioms C03.hpEnv_wf
 #print axioms C03.hpoint_v4_read_by_v3
